@@ -32,10 +32,24 @@
 //! internal error by construction (`try_build` requires it) and is not generated; arithmetic on columns
 //! is generated but the rewriter treats it as unhandled (always keeps) — it is kept to check exactly that.
 //!
-//! Sensitivity probes (mkpatch + mutrun, `./check C22 quick`): see the end of this header.
+//! Genuine defects found on the unchanged tree (each: minimal case under /verif/regressions/C22/c22/, open entry
+//! in /verif/known_findings.json, signature excluded by `known_sig`, candidate repair under /verif/fixes/):
+//! 1. `neg-of-int-min` — `-c < lit` is rewritten to `c > -lit`, but NegativeExpr wraps (`-MIN = MIN`).
+//! 2. `cast-numeric-to-bool` — `CAST(int AS BOOLEAN) op lit` rewritten to min/max although the cast is not monotone.
+//! 3. `cast-decimal-to-int` — try_build's simplifier pass "unwraps" the truncating cast Decimal -> Int
+//!    (`CAST(d AS INT) >= -1` -> `d >= -1.00`), pruning a container whose max is -1.50.
+//! 4. `try-cast-is-not-distinct-from-null` — `TRY_CAST(c AS T) IS NOT DISTINCT FROM NULL` -> `c_null_count > 0`.
+//! Also observed, not C22's subject (only labelled `simplifier-changed-row-truth`): PhysicalExprSimplifier turns
+//! `TRY_CAST(u8 AS Int8) != 2` into `u8 != 2` (NULL -> TRUE for 200).
 //!
-//! PROBES
-//! (filled in after the runs — see bottom of file `PROBE LOG`)
+//! Sensitivity probes (patches in crates/vf-prune/probes/, `mutrun <patch> -- ./check C22 quick`):
+//! * c22-p2-ne-and: `col != lit` pruned on `min != lit AND lit != max` (instead of OR)        -> VIOLATION after 23 cases
+//! * c22-p3-guarantee-noteq-in: LiteralGuarantee treats `!=` as an `In` guarantee              -> VIOLATION after 93 cases
+//!   (caught by the guarantee oracle: "literal guarantee `c0 in (..)` fails on a row where the predicate is TRUE")
+//! * c22-p4-isnull-gt1: `IS NULL` rewritten to `null_count > 1`                                 -> VIOLATION after 67 cases
+//! * c22-p1-notlike-any-suffix: NOT LIKE rule applied to any pattern with a constant prefix (`a_`, `a%b`): first run
+//!   stayed green (the string pool had no value between two matching strings that does not match); the pool was
+//!   extended ("aab", "ac", "acb", "abd") and the probe re-run: see probes/batch2-log.txt (verdict recorded there).
 use std::collections::HashSet;
 use std::sync::Arc;
 
@@ -1095,7 +1109,7 @@ impl Property for C22 {
             .boxed()
     }
     fn budget(&self, tier: Tier) -> Budget {
-        Budget::new(tier.pick(24_000, 1_500_000), tier.pick(8, 16)).min_nontrivial(tier.pick(300, 10_000)).discard_cap(0.3)
+        Budget::new(tier.pick(24_000, 1_000_000), tier.pick(8, 16)).min_nontrivial(tier.pick(300, 10_000)).discard_cap(0.3)
     }
     fn rule(&self) -> String {
         "schema of 1-3 typed columns x predicate tree (depth<=3) resolved against it x 1-6(8) containers of 0-8(12) pool-valued rows with per-column soundly weakened statistics; \
